@@ -416,11 +416,11 @@ func c13schedUnits(tier string) []mc.Unit {
 					cas := fmt.Sprintf("stream n=%d cap=%d schedule=%v", n, capa, c.Choices())
 					if out.String() != "ok" {
 						r.Fail(mc.Failure{Clause: "stream-terminates", Case: cas, Choices: c.Choices(), Expected: "producer and consumer finish, channel closed once", Got: out.String()})
-						return r.FailCount < 5
+						return !r.Enough()
 					}
 					if !c13equal(got, list) || closedSeen != 1 {
 						r.Fail(mc.Failure{Clause: "stream-records", Case: cas, Choices: c.Choices(), Expected: c13show(list) + " then closed", Got: c13show(got)})
-						return r.FailCount < 5
+						return !r.Enough()
 					}
 					return true
 				})
@@ -468,6 +468,6 @@ func c13units(tier string) []mc.Unit {
 
 func init() {
 	mc.Register(&mc.Harness{ID: "C13", Units: c13units,
-		Rule: "inputs: distinct (record list, layout, chunking) files, layouts enumerated with a deviation bound from the default (Build text, single read, uncompressed); schedules: every interleaving of the streaming producer with a consumer task for each channel capacity; non-trivial = a layout that differs from plain Build output, or any schedule execution",
+		Rule:   "inputs: distinct (record list, layout, chunking) files, layouts enumerated with a deviation bound from the default (Build text, single read, uncompressed); schedules: every interleaving of the streaming producer with a consumer task for each channel capacity; non-trivial = a layout that differs from plain Build output, or any schedule execution",
 		Assume: []string{"compress/gzip and bufio are trusted", "interleavings at channel-operation granularity"}})
 }
